@@ -195,6 +195,14 @@ fn monitor_one(ctx: &mut Ctx, class: &str, entry: &str, kt: KT, bytes: &[u8], rd
         ctx.violate("C03", "panic", &format!("{entry}/{}", panic_sig(p)), || format!("{entry}::<{ktn}> panicked: {p}"), || {
             replay_input(class, entry, kt, bytes)
         });
+        // C02 promises a verdict for every one-item input ("succeeds iff ...; every other input is rejected with
+        // an error value"): a panic is neither, so where the reference is decisive it is a C02 event as well.
+        if !matches!(rd, RefOut::NotOneItem(_)) && matches!(rd, RefOut::Accept(_) | RefOut::Reject(_)) {
+            let tag = rd.tag();
+            ctx.violate("C02", "panic-instead-of-verdict", &format!("{class}/{ktn}/{tag}"), || {
+                format!("class {class} kt {ktn}: RefDecode={tag}, library panicked: {p}")
+            }, || replay_input(class, entry, kt, bytes));
+        }
         return;
     }
     if out.cpu_ns > CPU_BOUND_NS {
